@@ -22,7 +22,7 @@ func init() {
 			{ID: "C18-R1", Title: "Compile rolls back on error", Floor: 1, Run: c18r1},
 			{ID: "C18-R2", Title: "transient flags on shared code are reset on every exit", Floor: 1, Run: c18r2},
 			{ID: "C18-R3", Title: "resume at the saved ip; reload carries every global over", Floor: 2, Run: c18r3},
-			{ID: "C18-R4", Title: "run-state reset on entry only (never on the way out of a failed piece)", Floor: 2, Run: resetDiscipline},
+			{ID: "C18-R4", Title: "run-state reset on entry only (never on the way out of a failed piece)", Floor: 1, Run: resetDiscipline},
 			{ID: "C18-R6", Title: "every piece starts with an empty operand stack", Floor: 1, Run: runStartsEmpty},
 			{ID: "C18-R7", Title: "Code.Root returns a parentless code object", Floor: 1, Run: rootHasNoParent},
 			{ID: "C18-R8", Title: "a rejected declaration leaves no symbol behind: initializer compiled before the name is inserted (shared with C02-R5)", Floor: 2, Run: c02r5},
@@ -30,17 +30,17 @@ func init() {
 			{ID: "C18-R10", Title: "the instruction pointer can be parked at the end of the code", Floor: 1, Run: setIPAcceptsTheEnd},
 			{ID: "C18-R5", Title: "VM-level caches are filled only after the fallible work succeeded (shared with C07-R5)", Floor: 1, Run: c07r5},
 			{ID: "C18-R11", Title: "the halt flag is cleared on every successful start", Floor: 1, Run: haltClearedOnEveryStart},
-			{ID: "C18-R12", Title: "the declaration pre-pass walks every statement", Floor: 2, Run: prePassVisitsEveryStatement},
+			{ID: "C18-R12", Title: "the declaration pre-pass walks every statement", Floor: 1, Run: prePassVisitsEveryStatement},
 			{ID: "C18-R13", Title: "Run resumes at the saved ip only for code that is still loaded (shared with C07)", Floor: 1, Run: savedIPBelongsToLoadedCode},
 			{ID: "C18-R14", Title: "the stack pointer is advanced only after the slot was written (it always indexes the array)", Floor: 1, Run: spStaysInRange},
 			{ID: "C18-R15", Title: "a failure kept in the compiler is cleared before compiling", Floor: 1, Run: stickyFailureClearedBeforeCompiling},
 			{ID: "C18-R16", Title: "clones share the code wrappers by pointer", Floor: 1, Run: clonesShareCodeWrappers},
 			{ID: "C18-R17", Title: "global slots are never Go nil", Floor: 1, Run: globalSlotsAreNeverGoNil},
 			{ID: "C18-R18", Title: "the rollback restores what compilation moves", Floor: 1, Run: rollbackRestoresWhatCompilationMoves},
-			{ID: "C18-R19", Title: "evaluations run under the caller's context", Floor: 2, Run: evaluationsRunUnderTheCallersContext},
-			{ID: "C18-R20", Title: "the snapshot comes first", Floor: 2, Run: theSnapshotComesFirst},
-			{ID: "C18-R21", Title: "importers remember only successes", Floor: 2, Run: importersRememberOnlySuccesses},
-			{ID: "C18-R22", Title: "a rollback only takes away", Floor: 2, Run: rollbackOnlyTakesAway},
+			{ID: "C18-R19", Title: "evaluations run under the caller's context", Floor: 1, Run: evaluationsRunUnderTheCallersContext},
+			{ID: "C18-R20", Title: "the snapshot comes first", Floor: 1, Run: theSnapshotComesFirst},
+			{ID: "C18-R21", Title: "importers remember only successes", Floor: 1, Run: importersRememberOnlySuccesses},
+			{ID: "C18-R22", Title: "a rollback only takes away", Floor: 1, Run: rollbackOnlyTakesAway},
 			{ID: "C18-R23", Title: "a host Call leaves the resume point alone (shared with C07-R32)", Floor: 1, Run: aHostCallLeavesTheResumePointAlone},
 			{ID: "C18-R24", Title: "symbols are written by the symbol table only", Floor: 1, Run: symbolsAreWrittenByTheSymbolTableOnly},
 			{ID: "C18-R25", Title: "names are read from their storage", Floor: 3, Run: namesAreReadFromTheirStorage},
